@@ -119,3 +119,8 @@ pub fn search_returned() {
         r.probe.post_cancel_nodes = 0;
     });
 }
+
+/// An iteration ended because a worker saw the cancellation flag at a poll.
+pub fn interrupt_observed() {
+    let _ = world::try_with(|r| r.probe.interrupts_observed += 1);
+}
